@@ -1303,9 +1303,13 @@ class Mailbox:
 
         # Update counts and commit state of the mailbox to the db.
         #
-        self.mtime = await Mailbox.get_actual_mtime(
-            self.server.mailbox, self.name
-        )
+        # NOTE: We record the mtime from *before* we looked at the folder. If
+        #       we read it again now, a message delivered after our scan of
+        #       the folder (but before this point) would be covered by the
+        #       recorded mtime and never be noticed. The price is one
+        #       redundant (cheap) rescan after our own writes.
+        #
+        self.mtime = start_mtime
         self.check_set_haschildren_attr()
         await self.commit_to_db()
 
@@ -1518,7 +1522,22 @@ class Mailbox:
         #     during any asyncio process where we want to guarantee writership.
         #
         assert self.mh_sequences_lock.locked()
-        self.mailbox.set_sequences({k: list(v) for k, v in seqs.items()})
+        new_seqs = {k: set(v) for k, v in seqs.items()}
+
+        # Messages delivered to the folder since our last resync are not in
+        # `seqs` yet. Keep whatever the delivery agent recorded for them (eg:
+        # `unseen`), otherwise rewriting the file makes them `\Seen`.
+        #
+        known = set(self.msg_keys)
+        for name, keys in self.mailbox.get_sequences().items():
+            for key in keys:
+                if key not in known and os.path.exists(
+                    mbox_msg_path(self.mailbox, key)
+                ):
+                    new_seqs.setdefault(name, set()).add(key)
+        self.mailbox.set_sequences(
+            {k: sorted(v) for k, v in new_seqs.items() if v}
+        )
 
     ##################################################################
     #
@@ -2101,6 +2120,18 @@ class Mailbox:
             uids_to_delete,
         )
 
+        # Take the messages out of all the sequences, and out of the folder's
+        # .mh_sequences, *before* their files are removed. Once a file is gone
+        # its message number is free: a message delivered right then reuses
+        # it, and must not find the old message's flags (eg: `Deleted`) still
+        # listed for that number.
+        #
+        for seq in self.sequences.keys():
+            for msg_key in to_delete:
+                self.sequences[seq].discard(msg_key)
+        async with self.mh_sequences_lock, self.mailbox.lock_folder():
+            self.set_sequences_in_folder(self.sequences)
+
         for msg_key in to_delete:
             # Remove the message from the folder.. and also remove it from our
             # uids to message index mapping. NOTE: To convert which to the IMAP
@@ -2130,20 +2161,7 @@ class Mailbox:
             await self._dispatch_or_pend_notifications(expunge_msg)
         self._rebuild_index_dicts()
 
-        # Remove all deleted msg keys from all sequences
-        #
-        for seq in self.sequences.keys():
-            for msg_key in to_delete:
-                self.sequences[seq].discard(msg_key)
         self.num_recent = len(self.sequences["Recent"])
-
-        # Keep the .mh_sequences up to date. Otherwise the removed message
-        # keys stay listed there (eg: in `Deleted`) and a message delivered
-        # later that reuses one of those keys inherits the old flags.
-        #
-        async with self.mh_sequences_lock, self.mailbox.lock_folder():
-            self.set_sequences_in_folder(self.sequences)
-
         await self.commit_to_db()
         self.optional_resync = False
 
